@@ -97,6 +97,14 @@ def gen_lib_package(rng, ids, path, idx, earlier):
     w("func (f Fwd[V]) M() int { println(%d); return f.V.M() + 1 }" % n("gmethod", "Fwd.M"))
     w("func CallM[X HasM](x X) int { println(%d); return x.M() }" % n("generic", "CallM"))
     w("type Summer interface{ Sum() int }")
+    # the same-looking UNNAMED struct types with an embedded unexported field in every package: distinct types per package
+    w("type al = int32")
+    w("func MkI() any { return struct{ int }{1} }")
+    w("func IsI(x any) bool { _, ok := x.(struct{ int }); return ok }")
+    w("func MkE() any { return struct{ error }{} }")
+    w("func IsE(x any) bool { _, ok := x.(struct{ error }); return ok }")
+    w("func MkA() any { return struct{ al }{2} }")
+    w("func IsA(x any) bool { _, ok := x.(struct{ al }); return ok }")
     w("var Z struct{}")
     w("var E [0]int\n")
     # uses: instantiate generics of this and of earlier packages with local / aliased / composite type arguments
@@ -124,6 +132,11 @@ def gen_lib_package(rng, ids, path, idx, earlier):
         w("\t\tvar s2 %s.Summer = %s.Emb[L]{}" % (al, al))
         w("\t\tvar s3 %s.Summer = &%s.Emb[T]{}" % (al, al))
         w("\t\tx += s1.Sum() + s2.Sum() + s3.Sum()")
+        # ... and the SAME instantiation in every referring package (each emits the wrappers: they must be mergeable)
+        w("\t\tvar s4 %s.Summer = &%s.Sq[int]{}" % (al, al))
+        w("\t\tvar s5 %s.Summer = %s.Emb[int]{}" % (al, al))
+        w("\t\tvar s6 %s.Summer = &%s.Emb[int]{}" % (al, al))
+        w("\t\tx += s4.Sum() + s5.Sum() + s6.Sum()")
         w("\t}")
         w("\tif pz, pe := &%s.Z, &%s.E; pz == nil || pe == nil {\n\t\tx++\n\t}" % (al, al))
     for (p, al) in imps:
@@ -168,6 +181,9 @@ def gen_main_program(rng, npk=3):
         w("\tprintln(%s.Use())" % al)
         w("\tprintln(call(%s.F), call(%s.K))" % (al, al))
         w("\t{\n\t\tvar s1 %s.Summer = &%s.Sq[T]{}\n\t\tvar s2 %s.Summer = %s.Emb[T]{}\n\t\tvar s3 %s.Summer = &%s.Emb[W]{}\n\t\tprintln(s1.Sum(), s2.Sum(), s3.Sum(), &%s.Z != nil, &%s.E != nil)\n\t}" % ((al,) * 8))
+        w("\t{\n\t\tvar s4 %s.Summer = &%s.Sq[int]{}\n\t\tvar s5 %s.Summer = %s.Emb[int]{}\n\t\tvar s6 %s.Summer = &%s.Emb[int]{}\n\t\tprintln(s4.Sum(), s5.Sum(), s6.Sum())\n\t}" % ((al,) * 6))
+        for (p2, al2) in earlier:
+            w("\tprintln(%s.IsI(%s.MkI()), %s.IsE(%s.MkE()), %s.IsA(%s.MkA()))" % (al, al2, al, al2, al, al2))
         w("\tprintln(%s.Gen[int](1), %s.Gen[T](T{2}).X, %s.Gen[%s.T](%s.T{X: 3}).X, (&%s.Box[T]{T{4}}).Get().X, %s.Gen2[T, %s.T](T{5}, %s.T{X: 6}).First().X)" % ((al,) * 9))
     # bound methods / method expressions / interface thunks: pairwise different (receiver name, method) in this package
     a0 = earlier[0][1]
@@ -294,6 +310,125 @@ def linkname_program(mod="k"):
     ]
     binds = [(mod + a[1:], mod + b[1:], c, d) for (a, b, c, d) in binds]
     return files, expected, binds, order
+
+
+def side_findings_program(mod="s"):
+    """defects of the unmodified tree found by the seeding agent (shapes 1, 3, 4, 5 of /verif/seeded/side-findings/C14)
+    -> files, order, expected value lines"""
+    files = {
+        "go.mod": "module %s\n\ngo 1.24\n" % mod,
+        "g/g.go": """package g
+
+// 1: a local type of a generic function, used in the body and in a closure of it
+func Wrap1[T any](x T, alt bool) any {
+	type W struct{ V T }
+	if alt {
+		return func() any { return W{x} }()
+	}
+	return W{x}
+}
+
+// 5: a local type of a generic function instantiated with function-local type arguments
+func Wrap5[T any](x T) any {
+	type W struct{ V T }
+	return W{x}
+}
+
+func Same(a, b any) bool { return a == b }
+
+// 3: promoted method wrappers of a struct embedding an instantiated generic type
+type Getter interface{ Get() int }
+
+type Box[T any] struct {
+	V T
+	N int
+}
+
+func (b Box[T]) Get() int { return b.N }
+""",
+        "b/b.go": """package b
+
+type U struct{ N int }
+
+func (u U) m() int { return u.N + 100 }
+
+type I interface{ m() int }
+
+func Call(i I) int { return i.m() }
+""",
+        "a/a.go": """package a
+
+import (
+	"MOD/b"
+	"MOD/g"
+)
+
+func Use() {
+	x, y := g.Wrap1(1, true), g.Wrap1(1, false)
+	println("a", g.Same(x, y), g.Same(x, g.Wrap1(1, true)))
+}
+
+// 4: own unexported method m and a promoted unexported b.U.m
+type T struct{ b.U }
+
+func (t T) m() int { return t.N + 1 }
+
+type J interface{ m() int }
+
+func Call(j J) int { return j.m() }
+
+// 5
+func F1() any {
+	type L struct{ X int }
+	return g.Wrap5(L{1})
+}
+
+func F2() any {
+	type L struct{ X, Y int }
+	return g.Wrap5(L{1, 2})
+}
+
+// 3
+type W struct{ g.Box[int] }
+
+func New(n int) W { return W{g.Box[int]{0, n}} }
+""".replace("MOD", mod),
+        "main.go": """package main
+
+import (
+	"MOD/a"
+	"MOD/b"
+	"MOD/g"
+)
+
+func main() {
+	a.Use()
+	x, y := g.Wrap1("s", true), g.Wrap1("s", false)
+	println("m", g.Same(x, y), g.Same(x, g.Wrap1("s", true)))
+	p, q := g.Wrap1(1, true), g.Wrap1(1, false)
+	println("m", g.Same(p, q), g.Same(q, g.Wrap1(1, false)))
+	t := a.T{b.U{5}}
+	println(a.Call(t), b.Call(t))
+	println(g.Same(a.F1(), a.F2()), g.Same(a.F1(), a.F1()))
+	var w g.Getter = a.New(5)
+	println(w.Get())
+}
+""".replace("MOD", mod),
+    }
+    order = [{"path": mod + "/g", "dir": "g", "files": ["g.go"]}, {"path": mod + "/b", "dir": "b", "files": ["b.go"]},
+             {"path": mod + "/a", "dir": "a", "files": ["a.go"]}, {"path": mod, "dir": ".", "files": ["main.go"]}]
+    files["order.json"] = json.dumps({"pkgs": order})
+    return files, order, ["a true true", "m true true", "m true true", "6 105", "false true", "5"]
+
+
+def unnamed_embedding_program(mod="u"):
+    """side finding 2: an UNNAMED struct embedding an instantiated generic type, converted to an interface -> files, expected"""
+    files = {
+        "go.mod": "module %s\n\ngo 1.24\n" % mod,
+        "g/g.go": "package g\n\ntype Getter interface{ Get() int }\n\ntype Box[T any] struct {\n\tV T\n\tN int\n}\n\nfunc (b Box[T]) Get() int { return b.N }\n",
+        "main.go": ('package main\n\nimport "%s/g"\n\nfunc main() {\n\tvar s g.Getter = struct{ g.Box[int] }{g.Box[int]{0, 7}}\n\tprintln(s.Get())\n}\n' % mod),
+    }
+    return files, ["7"]
 
 
 def routine_program():
